@@ -7,7 +7,7 @@ import fractions
 import z3
 
 from .source import EngineError, ClassInfo, BUILTIN_CLASSES
-from .vals import (Sym, Obj, Opaque, Closure, BoundMethod, Builtin, ExternalRef, HostMethod,
+from .vals import (FSpec, Sym, Obj, Opaque, Closure, BoundMethod, Builtin, ExternalRef, HostMethod,
                    OpaqueMethod, SuperProxy, MsgVal, ModuleVal, is_sym, numeric_kind, to_str_term,
                    to_int_term, to_real_term)
 from . import ops
@@ -34,6 +34,8 @@ def typenames(I, v):
         return {"str"}
     if isinstance(v, bytes):
         return {"bytes"}
+    if isinstance(v, FSpec):
+        return set(v.pytype) if v.pytype else {"float"}
     if isinstance(v, Sym):
         if v.pytype:
             return set(v.pytype) if not isinstance(v.pytype, str) else {v.pytype}
